@@ -156,6 +156,29 @@ func VxUnwrapAtMostOnce() {
 	vxAssert("afterwards the wrapping token and its payload no longer exist", vxWW.token == nil && vxWW.payload == nil)
 }
 
+// a second unwrap arriving while the first is still in flight: the first request has consumed the single use (the
+// stored entry is revocation-pending) but has not yet read and destroyed the cubbyhole. Whatever copy of the entry the
+// second request's handler holds - looked up before the first one's use (NumUses 1) or after it (tainted lookup:
+// revocation-pending) - it must not obtain the payload and must not touch the cubbyhole.
+func VxUnwrapWhileAnotherInFlight() {
+	ctx := namespace.RootContext(context.Background())
+	c := vxWCore()
+	b := &SystemBackend{Core: c}
+	vxWW = &vxWrapWorld{
+		token:   &logical.TokenEntry{ID: "wt", NumUses: tokenRevocationPending, Policies: []string{"response-wrapping"}, NamespaceID: namespace.RootNamespaceID},
+		payload: map[string]any{"response": "{\"secret\":\"s3cr3t\"}"},
+	}
+	holder := &logical.TokenEntry{ID: "wt", NumUses: 1, Policies: []string{"response-wrapping"}}
+	if vxBool("second request looked the token up after the first one consumed the use") {
+		holder.NumUses = tokenRevocationPending
+	}
+	resp, err := b.responseWrappingUnwrap(ctx, holder, true)
+	vxReach("unwrap: second request while the first is in flight")
+	vxAssert("a second unwrap in flight obtains nothing", err != nil && resp == "")
+	vxAssert("and does not read the cubbyhole", vxWW.cubbyReads == 0)
+	vxAssert("the payload is still there for the request that consumed the use", vxWW.payload != nil)
+}
+
 // a token is a wrapping token only if its policy list is exactly [response-wrapping]; rejected attempts are audited
 func VxValidateWrappingToken() {
 	ctx := namespace.RootContext(context.Background())
